@@ -114,11 +114,14 @@ func rhReporter(w *World) {
 	for _, fr := range []*FuncRef{handleError, handleWarning} {
 		body := fr.Decl.Body
 		g := buildCFG(info, body)
-		d := &Dataflow{G: g, Must: false, Init: Facts{}, Transfer: func(n ast.Node, in Facts) Facts { return in }}
+		// must-analysis: the fact "root" holds only where `h.parent == nil` has been established on
+		// every path (a handler method without any test of h.parent establishes nothing: a
+		// sub-handler that carries a reporter of its own would call it under its own mutex)
+		d := &Dataflow{G: g, Must: true, Init: Facts{}, Transfer: func(n ast.Node, in Facts) Facts { return in }}
 		d.Branch = func(leaf ast.Expr, truth bool, s Facts) Facts {
 			if be, ok := leaf.(*ast.BinaryExpr); ok && selField(info, be.X) == parent && isNilIdent(info, be.Y) {
-				if (be.Op == token.NEQ && truth) || (be.Op == token.EQL && !truth) {
-					return s.with("child")
+				if (be.Op == token.NEQ && !truth) || (be.Op == token.EQL && truth) {
+					return s.with("root")
 				}
 			}
 			return s
@@ -128,10 +131,10 @@ func rhReporter(w *World) {
 			inspectPost(n, func(x ast.Node) {
 				if c, ok := x.(*ast.CallExpr); ok {
 					if _, isRep := allowed[callee(info, c)]; isRep {
-						if before["child"] {
-							w.violation("RH1|"+fr.Name+"|root-only", c.Pos(), "a sub-handler (parent != nil) can reach the reporter directly")
+						if !before["root"] {
+							w.violation("RH1|"+fr.Name+"|root-only", c.Pos(), "the reporter can be reached without h.parent == nil having been established: a sub-handler then enters the reporter under its own mutex, not the root's, so tasks reporting through different sub-handlers are inside the reporter at the same time")
 						} else {
-							w.ok("RH1|"+fr.Name+"|root-only", c.Pos(), "the reporter is reached only on the root handler path (parent == nil)")
+							w.ok("RH1|"+fr.Name+"|root-only", c.Pos(), "the reporter is reached only on the root handler path (parent == nil established on every path)")
 						}
 					}
 				}
